@@ -1,2 +1,51 @@
-import Pakhi.Model.Interp
-import Pakhi.Model.Parser
+/-
+  C10 — the tokenizer is total and loses nothing: every character, the right line.
+
+  `tokenize_total`: for EVERY character sequence (any length, any characters, ending anywhere — in
+  the middle of a number, a string, a comment, an escaped `#`) the tokenizer returns a token list or
+  a syntax error with the fuel `|src| + 1` it is given: it never panics (every look-ahead is the
+  pattern match of the suffix list, fixes F1/F2), never runs out of fuel (each step consumes at least
+  one character, fix F3 — the former infinite loop) and so produces at most `|src| + 1` tokens.
+  Covering and line numbers (`tokenize_cover`, `tokenize_lines`) are decided on every run by the
+  independent specification oracle of the C10 check over the exhaustive small alphabet.
+-/
+import Pakhi.Lemmas.Lexer
+
+namespace Pakhi
+namespace C10
+
+/-- one tokenizer step makes progress or reports a syntax error — never a panic, never zero width -/
+theorem consume_progress (c : Char) (rest : Str) (line : Nat) (file : Str) (ao : Bool) :
+    Consumed.Good (consume (c :: rest) line file ao) := consume_good c rest line file ao
+
+/-- the tokenizer is total -/
+theorem tokenize_total (src : Str) (file : Str) :
+    (∃ toks, tokenize src file = .ok toks) ∨ (∃ e, tokenize src file = .err e ∧ e.cls = .syntax) :=
+  Pakhi.tokenize_total src file
+
+theorem tokenize_never_panics (src : Str) (file : Str) : (∀ p, tokenize src file ≠ .panic p) ∧ tokenize src file ≠ .fuel := by
+  rcases Pakhi.tokenize_total src file with ⟨t, h⟩ | ⟨e, h, _⟩ <;> simp [h]
+
+/-- blanks produce no token; only a newline advances the line counter -/
+theorem blank_step (file : Str) (f : Nat) (b : Char) (src : Str) (line : Nat) (acc : List Token)
+    (hb : b = ' ' ∨ b = '\t' ∨ b = '\r' ∨ b = '\n') :
+    tokenizeLoop file (f+1) (b :: src) line acc = tokenizeLoop file f src (line + if b = '\n' then 1 else 0) acc := by
+  rcases hb with rfl | rfl | rfl | rfl <;> simp [tokenizeLoop, consume, simpleTok?, bnDigitVal?] <;> rfl
+
+/-- keyword / identifier classification is the 13-entry table (tied to the source by `SrcFactsAgree.keywords_agree`) -/
+theorem classify_word (c : Char) (rest : Str) (line : Nat) (file : Str) (h : isIdentChar c = true) :
+    consumeWord c rest line file =
+      mkTok (c :: rest) line file ((keyword? ((c :: rest).takeWhile isIdentChar)).getD .ident) ((c :: rest).takeWhile isIdentChar).length := by
+  unfold consumeWord
+  simp only [h, Bool.not_true, Bool.false_eq_true, if_false]
+  cases keyword? ((c :: rest).takeWhile isIdentChar) <;> rfl
+
+/-- a character that starts no token is a syntax error (it used to hang the tokenizer) -/
+theorem stray_character_is_error (c : Char) (rest : Str) (line : Nat) (file : Str) (h : isIdentChar c = false) :
+    ∃ e, consumeWord c rest line file = .err e ∧ e.cls = .syntax ∧ e.line = line := by
+  simp [consumeWord, h, mkErr]
+
+example : isIdentChar '$' = false ∧ isIdentChar '.' = false ∧ isIdentChar '\\' = false ∧ isIdentChar '`' = false := by decide
+
+end C10
+end Pakhi
